@@ -282,3 +282,96 @@ def random_splits(rng, n, count, kmax=8):
             prev = c
         out.append(sizes)
     return out
+
+
+# ------------------------------------------------------------------------------ request level (C10)
+class CountingStream:
+    """wsgi.input stand-in that counts the bytes handed out (what the server's input lost)."""
+
+    def __init__(self, data: bytes):
+        self._b = io.BytesIO(data)
+        self.consumed = 0
+
+    def read(self, n=-1):
+        out = self._b.read(n)
+        self.consumed += len(out)
+        return out
+
+    def readline(self, n=-1):
+        out = self._b.readline(n)
+        self.consumed += len(out)
+        return out
+
+    def readinto(self, b):
+        n = self._b.readinto(b)
+        self.consumed += n or 0
+        return n
+
+
+def run_request(body: bytes, content_type: str, *, mcl=None, maxmem=None, maxparts=None, has_cl=True, term=False) -> dict:
+    """Request.form / Request.files under the three limits; returns result + bytes consumed from wsgi.input."""
+    from werkzeug.exceptions import RequestEntityTooLarge
+    from werkzeug.test import EnvironBuilder
+    from werkzeug.wrappers import Request
+
+    env = EnvironBuilder(method="POST").get_environ()
+    stream = CountingStream(body)
+    env["wsgi.input"] = stream
+    env["CONTENT_TYPE"] = content_type
+    if has_cl:
+        env["CONTENT_LENGTH"] = str(len(body))
+    else:
+        env.pop("CONTENT_LENGTH", None)
+    if term:
+        env["wsgi.input_terminated"] = True
+
+    class R(Request):
+        max_content_length = mcl
+        max_form_memory_size = maxmem
+        max_form_parts = maxparts
+
+    res = {"err": "", "fields": [], "files": []}
+    try:
+        r = R(env)
+        form, files = r.form, r.files
+        res["fields"] = [[cps(k), cps(v)] for k, v in form.items(multi=True)]
+        out = []
+        for k, f in files.items(multi=True):
+            data = f.stream.read()
+            enc, _ = _slice_or_lit(data, body, 0)
+            out.append([cps(k), cps(f.filename or ""), cps(f.content_type or ""), enc["off"], enc["len"], enc["lit"]])
+            f.close()
+        res["files"] = out
+    except RequestEntityTooLarge:
+        res["err"] = "too_large"
+    except ValueError:
+        res["err"] = "value"
+    except Exception as ex:
+        res["err"] = "exc:" + type(ex).__name__
+    return {"res": res, "consumed": stream.consumed}
+
+
+def limit_bodies(rng: random.Random, quick: bool):
+    """(ctype, boundary, body) around the limits: fields/files of various sizes, many small parts,
+    a huge header block, no delimiter at all, long CR/LF runs, urlencoded bodies."""
+    out = []
+    b = b"LimitBoundary"
+    sizes = [0, 1, 9, 10, 11, 40, 200] if quick else [0, 1, 9, 10, 11, 40, 63, 64, 65, 200, 1000, 5000]
+    for n in sizes:
+        out.append(("multipart", b, build_body([(b"f", None, None, b"v" * n)], b, lead=False)))
+        out.append(("multipart", b, build_body([(b"up", b"u.bin", b"application/octet-stream", b"\x01" * n), (b"f", None, None, b"w" * (n // 2))], b)))
+    for k in ([1, 2, 3, 10] if quick else [1, 2, 3, 10, 50, 200]):
+        out.append(("multipart", b, build_body([(b"p%d" % i, None, None, b"x") for i in range(k)], b, lead=False)))
+        out.append(("multipart", b, build_body([(b"p", b"f%d" % i, None, None) for i in range(k)], b, lead=False)))
+    out.append(("multipart", b, b"--" + b + b"\r\nContent-Disposition: form-data; name=\"h\"\r\nX-Pad: " + b"p" * 300 + b"\r\n\r\nv\r\n--" + b + b"--\r\n"))
+    out.append(("multipart", b, b"no delimiter at all " * 20))
+    out.append(("multipart", b, build_body([(b"f", None, None, b"\r\n" * 60)], b, lead=False)))
+    out.append(("multipart", b, build_body([(b"f", None, None, b"\r" * 50 + b"\n" * 50)], b, lead=False)))
+    out.append(("multipart", b, b"preamble " * 30 + build_body([(b"f", None, None, b"v")], b)))
+    for n in ([0, 1, 10, 11, 100] if quick else [0, 1, 10, 11, 100, 1000, 70000]):
+        pairs = []
+        while sum(len(k) + len(v) + 2 for k, v in pairs) < n:
+            pairs.append((b"k%d" % len(pairs), b"v" * rng.randint(0, 6)))
+        out.append(("urlencoded", b"", b"&".join(k + b"=" + v for k, v in pairs)))
+    out.append(("urlencoded", b"", b"a=1&b=2&c=3&d=4&e=5&f=6"))
+    return out
